@@ -159,29 +159,33 @@ Inductive position :=
 | PSecondGen       (* the second handle() generator of the same client raises before its first yield *)
 | PSecondYield     (* handle() raises after its second yield *)
 | PDisconnect      (* on_disconnection raises after an ordinary disconnect *)
+| PConnGenPeerLeft (* the peer leaves while an async-generator on_connection() waits at its yield (no exception of the handler) *)
+| PDelay (d : delay) (* handle() yields d as the delay for its second request; when that raises (expiry or unusable value) it
+                        raises e1 while handling the error thrown in, otherwise it raises e1 after the request *)
 | PThrownPipelined. (* like PThrownParse, but the malformed frame arrived in the same chunk as the previous (valid) request:
                       the request receiver finds it already buffered when handle() yields again *)
 
 Definition all_positions : list position :=
   [PConnCoro; PConnGenBefore; PConnGenAfter; PHandleBefore; PHandleAfter; PThrownParse; PThrownTimeout;
-   PSecondGen; PSecondYield; PDisconnect; PThrownPipelined].
+   PSecondGen; PSecondYield; PDisconnect; PThrownPipelined; PConnGenPeerLeft] ++ map PDelay all_delays.
 
 Definition pos_code (p : position) : Z :=
   match p with
   | PConnCoro => 0 | PConnGenBefore => 1 | PConnGenAfter => 2 | PHandleBefore => 3 | PHandleAfter => 4
   | PThrownParse => 5 | PThrownTimeout => 6 | PSecondGen => 7 | PSecondYield => 8 | PDisconnect => 9
-  | PThrownPipelined => 10
+  | PThrownPipelined => 10 | PConnGenPeerLeft => 11 | PDelay d => 20 + delay_code d
   end.
 Definition pos_of_code (z : Z) : option position :=
   match z with
   | 0 => Some PConnCoro | 1 => Some PConnGenBefore | 2 => Some PConnGenAfter | 3 => Some PHandleBefore
   | 4 => Some PHandleAfter | 5 => Some PThrownParse | 6 => Some PThrownTimeout | 7 => Some PSecondGen
-  | 8 => Some PSecondYield | 9 => Some PDisconnect | 10 => Some PThrownPipelined | _ => None
+  | 8 => Some PSecondYield | 9 => Some PDisconnect | 10 => Some PThrownPipelined | 11 => Some PConnGenPeerLeft
+  | _ => match delay_of_code (z - 20) with Some d => Some (PDelay d) | None => None end
   end.
 
 (* has on_connection completed when the fault happens? *)
 Definition pos_connected (p : position) : bool :=
-  match p with PConnCoro | PConnGenBefore | PConnGenAfter => false | _ => true end.
+  match p with PConnCoro | PConnGenBefore | PConnGenAfter | PConnGenPeerLeft => false | _ => true end.
 
 (* hook log of the scenario up to the fault: 1 on_connection entered, 2 a handle() generator started,
    3 a request delivered to a hook, 5 an error thrown into handle(); 4 = on_disconnection entered is appended by the
@@ -197,6 +201,8 @@ Definition pos_hooks (p : position) : list Z :=
   | PSecondYield => [1; 2; 3; 3]
   | PDisconnect => [1; 2; 3; 2]
   | PThrownPipelined => [1; 2; 3; 5]
+  | PConnGenPeerLeft => [1]
+  | PDelay d => match delay_error d with None => [1; 2; 3; 3] | Some _ => [1; 2; 3; 5] end
   end.
 
 Record outcome := {
@@ -216,9 +222,9 @@ Definition is_item (a b : stack_item) : bool :=
 
 (* ---------- TCP: an established connection, fault e1 at position p, optional second fault e2 raised by
    on_disconnection (for PDisconnect e1 IS the on_disconnection fault) ---------- *)
-Definition tcp_client_task_main (tls : bool) (p : position) (e1 : exc) (e2 : option exc) : outcome :=
+Definition tcp_client_task_main (tls : flavour) (p : position) (e1 : exc) (e2 : option exc) : outcome :=
   let connected := pos_connected p in
-  let raised0 := match p with PDisconnect => None | _ => Some e1 end in
+  let raised0 := match p with PDisconnect | PConnGenPeerLeft => None | _ => Some e1 end in
   let disc_exc := match p with PDisconnect => Some e1 | _ => e2 end in
   (* request_handler_exit_stack: disconnect_client is there iff it was pushed before the fault *)
   let run_disc := if misc_disconnect_after_connection then connected else true in
@@ -251,12 +257,23 @@ Definition tcp_client_task_main (tls : bool) (p : position) (e1 : exc) (e2 : opt
    buffered is THROWN INTO handle() like any other ([receiver_next_protected], regenerated).  Otherwise it leaves
    request_receiver.next(), __client_coroutine closes the handler generator (on_disconnection runs) and the parse error
    leaves the client task, outside every filter. *)
-Definition tcp_client_task (tls : bool) (p : position) (e1 : exc) (e2 : option exc) : outcome :=
+(* what leaves the client task when an exception escapes request_receiver.next(): __client_coroutine closes the handler
+   generator (on_disconnection runs) and the exception goes on, outside every filter *)
+Definition escape_outcome (k : leaf) : outcome :=
+  {| o_raises := Some (Naked k); o_closed := stream_close_pushed_first; o_hooks := [1; 2; 3; 4];
+     o_logs := []; o_disc_called := true |}.
+
+Definition tcp_client_task (tls : flavour) (p : position) (e1 : exc) (e2 : option exc) : outcome :=
   match p with
   | PThrownPipelined =>
-      if receiver_next_protected then tcp_client_task_main tls p e1 e2
-      else {| o_raises := Some (Naked KParse); o_closed := stream_close_pushed_first; o_hooks := [1; 2; 3; 4];
-              o_logs := []; o_disc_called := true |}
+      if receiver_next_protected then tcp_client_task_main tls p e1 e2 else escape_outcome KParse
+  | PDelay d =>
+      (* the timeout scope armed with the yielded delay lives inside the same try: [tcp_wait_clauses] = the classes that
+         `except ... as exc: return ThrowAction(exc)` catches around it (both receivers) *)
+      match delay_error d with
+      | Some k => if leaf_matches tcp_wait_clauses k then tcp_client_task_main tls p e1 e2 else escape_outcome k
+      | None => tcp_client_task_main tls p e1 e2
+      end
   | _ => tcp_client_task_main tls p e1 e2
   end.
 
@@ -268,7 +285,7 @@ Fixpoint pushed_before (a b : stack_item) (st : list stack_item) : bool :=
   | x :: st' => if is_item a x then existsb (is_item b) st' else if is_item b x then false else pushed_before a b st'
   end.
 
-Definition tcp_exit_callback_fault (tls : bool) (item : stack_item) (e : exc) : outcome :=
+Definition tcp_exit_callback_fault (tls : flavour) (item : stack_item) (e : exc) : outcome :=
   let r := if pushed_before SSuppress item (tcp_init_stack tls) then layers_run tcp_suppress e
            else {| f_exc := Some e; f_logs := []; f_closed := false |} in
   {| o_raises := f_exc r; o_closed := stream_close_pushed_first; o_hooks := [1; 2; 3; 2; 4]; o_logs := f_logs r;
@@ -282,16 +299,19 @@ Definition setup_task (st : setup_stage) (e : exc) : outcome :=
   {| o_raises := f_exc r; o_closed := f_closed r; o_hooks := []; o_logs := []; o_disc_called := false |}.
 
 (* ---------- UDP ---------- *)
-Inductive upos := UBefore | UAfter | UThrownParse | UThrownTimeout | USecondYield.
-Definition all_upos : list upos := [UBefore; UAfter; UThrownParse; UThrownTimeout; USecondYield].
+Inductive upos := UBefore | UAfter | UThrownParse | UThrownTimeout | USecondYield | UDelay (d : delay).
+Definition all_upos : list upos := [UBefore; UAfter; UThrownParse; UThrownTimeout; USecondYield] ++ map UDelay all_delays.
 Definition upos_code (p : upos) : Z :=
-  match p with UBefore => 0 | UAfter => 1 | UThrownParse => 2 | UThrownTimeout => 3 | USecondYield => 4 end.
+  match p with UBefore => 0 | UAfter => 1 | UThrownParse => 2 | UThrownTimeout => 3 | USecondYield => 4
+          | UDelay d => 20 + delay_code d end.
 Definition upos_of_code (z : Z) : option upos :=
   match z with 0 => Some UBefore | 1 => Some UAfter | 2 => Some UThrownParse | 3 => Some UThrownTimeout
-          | 4 => Some USecondYield | _ => None end.
+          | 4 => Some USecondYield
+          | _ => match delay_of_code (z - 20) with Some d => Some (UDelay d) | None => None end end.
 Definition upos_hooks (p : upos) : list Z :=
   match p with
   | UBefore => [2] | UAfter => [2; 3] | UThrownParse | UThrownTimeout => [2; 3; 5] | USecondYield => [2; 3; 3]
+  | UDelay d => match delay_error d with None => [2; 3; 3] | Some _ => [2; 3; 5] end
   end.
 
 Inductive cstate := CNone | CRunning.
@@ -304,7 +324,7 @@ Record uoutcome := {
   u_logs : list Z
 }.
 
-Definition udp_client_task (p : upos) (e : exc) : uoutcome :=
+Definition udp_client_task_main (p : upos) (e : exc) : uoutcome :=
   let '(r, lg) := match_run udp_aexit e in
   let st := match r with
             | None => CNone
@@ -314,6 +334,23 @@ Definition udp_client_task (p : upos) (e : exc) : uoutcome :=
   {| u_raises := r; u_state := st; u_fresh := fresh;
      u_hooks := upos_hooks p ++ (if fresh then [2; 3] else []);
      u_logs := lg |}.
+
+(* datagram.py __client_coroutine_inner_loop: "arm the yielded delay, pop and parse the next datagram" sits in a try whose
+   handler turns what it catches into a ThrowAction ([udp_wait_clauses] = the classes it names); anything else leaves
+   __client_coroutine (its finally still marks the client done) and the server's task group *)
+Definition udp_client_task (p : upos) (e : exc) : uoutcome :=
+  match p with
+  | UDelay d =>
+      match delay_error d with
+      | Some k =>
+          if leaf_matches udp_wait_clauses k then udp_client_task_main p e
+          else {| u_raises := Some (Naked k);
+                  u_state := if udp_done_in_finally && udp_done_marks_first then CNone else CRunning;
+                  u_fresh := false; u_hooks := [2; 3]; u_logs := [] |}
+      | None => udp_client_task_main p e
+      end
+  | _ => udp_client_task_main p e
+  end.
 
 (* ---------- finite domains used by the theorems ---------- *)
 Fixpoint sublists {X} (l : list X) : list (list X) :=
